@@ -54,6 +54,10 @@ def validateBasicWire (o : Oracle) (sh : SignedHeader) : Bool :=
 def validSignedData (o : Oracle) (proposer : Bytes) (sd : SignedData) : Bool :=
   decide (sd.signer.address = proposer) && sd.signer.pubKey ≠ [] && o.dataSigOk
 
+/-- the P2P header path (`HeaderStoreRetrieveLoop`): `isUsingExpectedSingleSequencer` on the stored header -/
+def p2pAdmit (o : Oracle) (proposer : Bytes) (sh : SignedHeader) : Bool :=
+  decide (sh.header.proposerAddress = proposer) && validateBasicWire o sh
+
 /-- `handlePotentialData` -/
 def classifyData (o : Oracle) (proposer : Bytes) (bs : Bytes) : BlobClass :=
   match SignedData.decode (fun _ => o.keyOk) bs with
